@@ -80,12 +80,17 @@ pub trait ExRead {
     type ExternalTraitSpecificationFor: std::io::Read;
     spec fn remaining(&self) -> Seq<u8>;
     spec fn reliable(&self) -> bool;
+    /// a greedy reader hands over as much as fits on every read and exposes all it has on fill_buf
+    /// (in-memory readers such as Cursor<&[u8]>); nothing is assumed of a reader that is not greedy
+    spec fn greedy(&self) -> bool;
     #[verifier::prophetic]
     spec fn src_eq(&self, o: &Self) -> bool;
     fn read(&mut self, buf: &mut [u8]) -> (r: std::io::Result<usize>)
         ensures
             (*final(self)).src_eq(&*old(self)),
             (*final(self)).reliable() == (*old(self)).reliable(),
+            (*final(self)).greedy() == (*old(self)).greedy(),
+            r matches Ok(n) ==> (*old(self)).greedy() ==> n == old(buf)@.len() || n == (*old(self)).remaining().len(),
             final(buf)@.len() == old(buf)@.len(),
             r matches Ok(n) ==> n <= old(buf)@.len() && n <= (*old(self)).remaining().len()
                 && (*final(self)).remaining() == (*old(self)).remaining().skip(n as int)
@@ -99,6 +104,7 @@ pub trait ExRead {
         ensures
             (*final(self)).src_eq(&*old(self)),
             (*final(self)).reliable() == (*old(self)).reliable(),
+            (*final(self)).greedy() == (*old(self)).greedy(),
             final(buf)@.len() == old(buf)@.len(),
             r is Ok ==> old(buf)@.len() <= (*old(self)).remaining().len()
                 && (*final(self)).remaining() == (*old(self)).remaining().skip(old(buf)@.len() as int)
@@ -119,6 +125,8 @@ pub trait ExBufRead: std::io::Read {
         ensures
             (*final(self)).src_eq(&*old(self)),
             (*final(self)).reliable() == (*old(self)).reliable(),
+            (*final(self)).greedy() == (*old(self)).greedy(),
+            r matches Ok(b) ==> (*old(self)).greedy() ==> b@ == (*old(self)).remaining(),
             r matches Ok(b) ==> (*final(self)).remaining() == (*old(self)).remaining()
                 && b@.is_prefix_of((*old(self)).remaining())
                 && (b@.len() == 0 <==> (*old(self)).remaining().len() == 0)
@@ -130,6 +138,7 @@ pub trait ExBufRead: std::io::Read {
         ensures
             (*final(self)).src_eq(&*old(self)),
             (*final(self)).reliable() == (*old(self)).reliable(),
+            (*final(self)).greedy() == (*old(self)).greedy(),
             amt <= (*old(self)).remaining().len(),
             (*final(self)).remaining() == (*old(self)).remaining().skip(amt as int),
             (*final(self)).buffered() == (*old(self)).buffered() - amt;
@@ -161,6 +170,7 @@ pub mod shim {
         fn read_u8(&mut self) -> (r: std::io::Result<u8>)
             ensures
                 (*final(self)).reliable() == (*old(self)).reliable(),
+                (*final(self)).greedy() == (*old(self)).greedy(),
                 r matches Ok(b) ==> (*old(self)).remaining().len() >= 1
                     && b == (*old(self)).remaining()[0] && crate::advanced(&*old(self), &*final(self), 1),
                 r is Err ==> (*final(self)).src_eq(&*old(self))
